@@ -209,6 +209,22 @@ def run_case(case, rec):
                     rec.state('failpoint %s:%d' % lf.fired)
             lf.fail_at = None
 
+            # ---------------- a removal right after a failed add, on the same pooled connection
+            counter.n, counter.fail_at = 0, max(1, K // 2)
+            try:
+                wn.add(rpath, progress_handler=Faulty)
+            except Exception:
+                pass
+            counter.fail_at = None
+            wn.remove('pother:1', progress_handler=None)
+            rec.event('remove-after-failed-add')
+            for key, msg in dbdump.audit(fdb.path):
+                rec.violation('remove-after-failed-add:' + key, 'removing a lexicon right after a failed add: ' + msg)
+            left = sorted(lx.specifier() for lx in wn.lexicons())
+            if left != sorted(sp for sp in m.lex if sp != 'pother:1'):
+                rec.violation('remove-after-failed-add:installed-set', f'installed after the removal: {left}')
+            restore()
+
             # ---------------- corrupted documents
             for kind, bad in corruptions(R, r):
                 bpath = wnio.write_resource(bad, work, random.Random(3), name='bad.xml')
